@@ -4,8 +4,7 @@
   Modelled: Visor.executeSignedBlock, Blockchain.processBlock/processTransactions,
   VerifyBlockTxnConstraints → transaction.verifyTxnHardConstraints → coin.VerifyTransactionCoinsSpending,
   Unspents.ProcessBlock; pool operations.  Tie: correspondence of the whole state digest (harness/ledger).
-  Scope of the proofs: the NON-arbitrating configuration (every node except the block publisher);
-  the arbitrating configuration is carried by the correspondence only (see `_partial` note below).
+  Scope of the proofs: BOTH configurations (ordinary node and arbitrating block publisher).
 -/
 import Sky.Ledger.Run
 namespace Sky.Props.C01
@@ -14,16 +13,16 @@ open Sky Sky.Ledger
 /-- The unspent coins (summed in ℕ — no modulus) equal the genesis volume after EVERY finite history of
 block submissions (valid, invalid, stale, duplicated, re-ordered), transaction injections, refresh,
 invalid-removal and restarts, starting from any state that holds the genesis supply. -/
-theorem supply_conserved {G : Nat} {g : Block} {cfg : Cfg} (harb : cfg.arb = false) (s0 : State) (ops : List Op)
-    (h0 : Good G g cfg s0) (hwf : ∀ op ∈ ops, ∀ t ∈ op.txns, WfSound t) :
+theorem supply_conserved {G : Nat} {g : Block} {cfg : Cfg} (s0 : State) (ops : List Op)
+    (h0 : Good G g cfg s0) (hwf : ∀ op ∈ ops, OpOK op) :
     coinsOfUx (run s0 ops).unspent = G :=
-  (good_run harb s0 ops h0 hwf).2.2.2
+  (good_run s0 ops h0 hwf).2.2.2
 
 /-- …and no two unspent outputs ever share an id -/
-theorem unspent_ids_unique {G : Nat} {g : Block} {cfg : Cfg} (harb : cfg.arb = false) (s0 : State) (ops : List Op)
-    (h0 : Good G g cfg s0) (hwf : ∀ op ∈ ops, ∀ t ∈ op.txns, WfSound t) :
+theorem unspent_ids_unique {G : Nat} {g : Block} {cfg : Cfg} (s0 : State) (ops : List Op)
+    (h0 : Good G g cfg s0) (hwf : ∀ op ∈ ops, OpOK op) :
     ((run s0 ops).unspent.map (·.id)).Nodup :=
-  (good_run harb s0 ops h0 hwf).2.2.1
+  (good_run s0 ops h0 hwf).2.2.1
 
 /-- the state right after the genesis block (one transaction, no inputs, one output — what
 coin.NewGenesisBlock builds) holds exactly the genesis coin volume -/
@@ -39,10 +38,10 @@ theorem genesis_good {cfg : Cfg} {gb : Block} {t : Txn} {o : Out} {s0 : State}
 
 /-- every transaction of an accepted (non-genesis) block has input coins EXACTLY equal to output coins,
 its inputs are unspent at the head, and both sums fit 64 bits -/
-theorem accepted_txn_balanced {s s' : State} {b g : Block} (harb : s.cfg.arb = false)
+theorem accepted_txn_balanced {s s' : State} {b g : Block} (hinj : HashInj b.txns)
     (hg : s.chain.head? = some g) (h : execSigned s b = .ok s') :
     ∀ t ∈ b.txns, ∃ uxIn, getArray s.unspent t.ins = .ok uxIn ∧ coinsOfUx uxIn = coinsOfOuts t.outs := by
-  obtain ⟨_, hv, _⟩ := accepted_block_facts harb hg h
+  obtain ⟨hv, _⟩ := accepted_block_facts hinj hg h
   intro t ht
   obtain ⟨uxIn, h1, _, h3, _⟩ := verifyBlockTxn_ok (hv t ht)
   exact ⟨uxIn, h1, h3⟩
